@@ -492,6 +492,17 @@ def run_all(specs: list[dict], jobs: int = 14, timeout: int = 120) -> list[dict]
                 out.append(f.result())
             except Exception as e:  # a worker died: machinery problem, keep it visible
                 out.append({"id": s["id"], "opt": s["opt"], "harness_error": f"{type(e).__name__}: {e}", "spec": s})
+    # a run that hit the per-run alarm is repeated alone with a generous budget before it is called a hang: on an
+    # overloaded machine a long run can simply be slow, and a slow run is not a violation
+    slow = [k for k, r in enumerate(out) if str(r.get("crash", "")).startswith("Timeout@")]
+    if slow:
+        with cf.ProcessPoolExecutor(2) as ex:
+            futs = {k: ex.submit(run_one, out[k]["spec"], 15 * timeout) for k in slow}
+            for k, f in futs.items():
+                try:
+                    out[k] = f.result()
+                except Exception:
+                    pass
     out.sort(key=lambda r: r["id"])
     return out
 
